@@ -60,11 +60,14 @@ pub fn mul_dw_cell(form: u8, d: i32, kx: i32, ky: i32, m: u32) {
     reached();
 }
 
+/// hi zero or in [2^-450, 2^450]; low word zero or at least 2^-959 in magnitude. The lower bound on
+/// the low word is an ENGINE restriction (DESIGN.md 2.4): CBMC's fma primitive returns wrong results
+/// when the product is zero and the addend has a minimal exponent (found by native replay).
 fn in_range450(x: TwoFloat) -> bool {
-    hi_in_range(x.hi(), -450, 450)
+    hi_in_range(x.hi(), -450, 450) && (x.lo() == 0.0 || be(x.lo()) >= 64)
 }
 
-//@ id=C04 tier=quick to=1200 cfg=std exh=1 desc="zero factor: x*0.0, 0.0*x, x*=0.0, x*ZERO, ZERO*x are exactly zero for ALL valid x with hi 0 or in [2^-450,2^450]"
+//@ id=C04 tier=quick to=1200 cfg=std exh=1 desc="zero factor: x*0.0, 0.0*x, x*=0.0, x*ZERO, ZERO*x are exactly zero for ALL valid x with hi 0 or in [2^-450,2^450] and lo 0 or >= 2^-959"
 #[cfg_attr(kani, kani::proof)]
 pub fn c04_zero_factor() {
     let x = any_valid();
@@ -88,7 +91,7 @@ pub fn c04_zero_factor() {
     reached();
 }
 
-//@ id=C04 tier=quick to=1200 cfg=std exh=1 desc="multiplying by +-1 is exact: x*(+-1.0), (+-1.0)*x, x*=(+-1.0), x*(+-ONE), (+-ONE)*x equal +-x word for word, ALL valid x with hi 0 or in [2^-450,2^450]"
+//@ id=C04 tier=quick to=1200 cfg=std exh=1 desc="multiplying by +-1 is exact: x*(+-1.0), (+-1.0)*x, x*=(+-1.0), x*(+-ONE), (+-ONE)*x equal +-x word for word, ALL valid x with hi 0 or in [2^-450,2^450] and lo 0 or >= 2^-959"
 #[cfg_attr(kani, kani::proof)]
 pub fn c04_unit_factor() {
     let x = any_valid();
@@ -123,8 +126,8 @@ pub fn pow2_factor(dw: bool) {
     let neg = any_bool();
     let p0 = f64::from_bits(((k + 1023) as u64) << 52);
     let p = if neg { -p0 } else { p0 };
-    // scaled low word does not underflow: zero, or still a normal number after scaling
-    assume(x.lo() == 0.0 || be(x.lo()) + k >= 1);
+    // scaled low word does not underflow (and stays clear of the fma engine gap, see in_range450)
+    assume(x.lo() == 0.0 || be(x.lo()) + k >= 64);
     let wh = x.hi() * p;
     let wl = x.lo() * p;
     if dw {
@@ -148,13 +151,13 @@ pub fn pow2_factor(dw: bool) {
     reached();
 }
 
-//@ id=C04 tier=quick to=1800 cfg=std exh=1 desc="x * 2^k (f64 factor, both orders and *=) is (hi*2^k, lo*2^k) exactly for ALL valid x with hi 0 or in [2^-450,2^450], k in [-60,60] symbolic, either sign, scaled low word normal"
+//@ id=C04 tier=quick to=1800 cfg=std exh=1 desc="x * 2^k (f64 factor, both orders and *=) is (hi*2^k, lo*2^k) exactly for ALL valid x with hi 0 or in [2^-450,2^450] and lo 0 or >= 2^-959, k in [-60,60] symbolic, either sign, scaled low word normal"
 #[cfg_attr(kani, kani::proof)]
 pub fn c04_pow2_factor_f64() {
     pow2_factor(false)
 }
 
-//@ id=C04 tier=quick to=1800 cfg=std exh=1 desc="x * (2^k, 0) (TwoFloat factor, both orders and *=) is (hi*2^k, lo*2^k) exactly for ALL valid x with hi 0 or in [2^-450,2^450], k in [-60,60]"
+//@ id=C04 tier=quick to=1800 cfg=std exh=1 desc="x * (2^k, 0) (TwoFloat factor, both orders and *=) is (hi*2^k, lo*2^k) exactly for ALL valid x with hi 0 or in [2^-450,2^450] and lo 0 or >= 2^-959, k in [-60,60]"
 #[cfg_attr(kani, kani::proof)]
 pub fn c04_pow2_factor_dw() {
     pow2_factor(true)
@@ -172,11 +175,11 @@ fn mul_dw_mutant(x: TwoFloat, y: TwoFloat) -> TwoFloat {
     tf(h, cl3 - (h - c.hi()))
 }
 
-//@ id=C04 tier=quick to=900 cfg=std kind=twin desc="twin: Algorithm 12 without the x.lo*y.hi cross term must violate 5u^2 already at M=16"
+//@ id=C04 tier=quick to=900 cfg=std kind=twin desc="twin: Algorithm 12 without the x.lo*y.hi cross term must violate 5u^2 already at M=8"
 #[cfg_attr(kani, kani::proof)]
 pub fn c04_twin_drop_cross() {
-    let x = dw_cell_m(1023, 54, 16);
-    let y = dw_cell_m(1023, 54, 16);
+    let x = dw_cell_m(1023, 54, 8);
+    let y = dw_cell_m(1023, 54, 8);
     let r = mul_dw_mutant(x, y);
     let exact = exact_dw_dw(x, y);
     let got = sc2(r.hi(), r.lo(), EMIN);
